@@ -173,3 +173,22 @@ Proof.
   - split; [apply inv_init|apply inv2_init]; auto.
   - split; [eapply inv_step|eapply inv2_step]; eauto.
 Qed.
+
+(** Every node that was ever enqueued (is in the queue, held by a worker, or done) is a node of the graph. *)
+Lemma lc_in_nodes_init c n : 0 < lc n (init c) -> In n (nodes (g c)).
+Proof.
+  unfold lc. simpl_st. rewrite csum_repeat_ns by reflexivity. rewrite cq_map_N.
+  unfold count_ev. cbn [count_occ]. intros H.
+  assert (Hin : In n (sources (g c))) by (apply (count_occ_In Nat.eq_dec); lia).
+  apply filter_In in Hin. tauto.
+Qed.
+
+Theorem enqueued_in_nodes c s n : cfg_ok c -> reachable c s -> 0 < lc n s -> In n (nodes (g c)).
+Proof.
+  intros Hc Hr. induction Hr as [|s k s' Hr IH Hn]; [apply lc_in_nodes_init|].
+  pose proof (inv_reachable c s Hc Hr) as I. intros Hl.
+  destruct (step_lc _ _ _ _ I Hn n) as [E|(_ & _ & w & p & todo & _ & Hw & Hin)].
+  - apply IH. lia.
+  - destruct (i_succ _ _ I _ _ _ Hw) as (_ & _ & Ht). apply Ht in Hin. destruct Hin as [Hs _].
+    apply in_succs in Hs. destruct Hc as [[_ Hwf] _]. apply Hwf in Hs. tauto.
+Qed.
